@@ -1,12 +1,12 @@
-\* 3 subnets (one Tor single-host) x 4 addresses, clock 0..4
+\* 3 subnets (one Tor single-host) x 4 addresses, clock 0..3
 CONSTANTS
   Subnets <- Subnets3
   Addrs <- Addrs4
   Covers <- Covers3
   HostOf <- HostOf3
-  MaxT = 4
+  MaxT = 3
   RelOffsets = {0, 1}
-  AbsTimes = {2, 4}
+  AbsTimes = {2}
   DefaultBan = 2
 INIT Init
 NEXT Next
